@@ -63,7 +63,6 @@ Verdict ==
                                   spec |-> [cause |-> m.status, ops |-> m.ops, fault |-> m.fault,
                                             out |-> m.out, nhist |-> Len(m.hist),
                                             \* did the run execute an op that reaches beyond bit address 2^w (ip + 2w > 2^w)?
-                                            topop |-> \E i \in 1..Len(m.hist) :
-                                                        ~IsBelowPow2(AddSmall(m.hist[i], 2 * m.w - 1), m.w)]]))
+                                            topop |-> TopOp(m)]]))
     ELSE TRUE
 =============================================================================
